@@ -579,6 +579,34 @@ def rule_r12(repo, run):
                   sample=dict(shape=desc, triple=triple))
 
 
+    # compute_cxx_deref: the C++ side - a reference is used like a value (`x.size()`, `&x`), only a pointer with `->`
+    f2 = wc.func("compute_cxx_deref")
+    argn2, localn2 = f2.args.args[0].arg, f2.args.args[1].arg
+    chain2 = [st for st in f2.body if isinstance(st, ast.If)]
+    for desc, op, want in (("pointer", "*", ("->", "")), ("reference", "&", (".", "&")), ("value", None, (".", "&"))):
+        def oracle2(e, op=op):
+            if isinstance(e, ast.Call) and isinstance(e.func, ast.Attribute) and pyflow.is_name(e.func.value, argn2) and e.func.attr in sem:
+                return op in sem[e.func.attr]
+            if isinstance(e, ast.Compare) and pyflow.is_name(e.left, localn2):
+                return False
+            if isinstance(e, ast.Name) and e.id == localn2:
+                return False
+            return None
+        taken = decide.take(chain2, oracle2)
+        if taken is None:
+            run.unmodelled_site(R, "wrapc.compute_cxx_deref[%s]" % desc, "decision chain not decidable")
+            continue
+        got = {}
+        for st in taken:
+            if isinstance(st, ast.Assign) and isinstance(st.targets[0], ast.Attribute):
+                got[st.targets[0].attr] = pyflow.const_str(st.value)
+        pair = (got.get("cxx_member"), got.get("cxx_addr"))
+        run.check(R, "wrapc.compute_cxx_deref[%s]" % desc, pair == want,
+                  "a C++ %s gives (member, addr) = %s, expected %s: a reference result `const std::string &f()` is used as "
+                  "`rv.c_str()` and `&rv` in the wrapper; `rv->c_str()` does not compile" % (desc, pair, want), wc.loc(f2),
+                  sample=dict(shape=desc, pair=pair))
+
+
 def rule_r13(repo, run, types):
     R = run.rule("C02.R13", "types and layouts seen from C are those of C++: native typemaps name the same type on both sides, "
                             "template parameters are looked up by name, struct members keep their declared order")
@@ -635,6 +663,48 @@ def rule_r14(repo, run, table):
     run.floor(R, "class result lookups", n, 6)
 
 
+def rule_r15(repo, run):
+    R = run.rule("C02.R15", "the statements for a function *result* are looked up with the indirection of the function's own "
+                            "declaration - also when the result has been turned into an argument of the wrapper (that argument "
+                            "is always a pointer); a release action is registered under the type it deletes (C06.R10)")
+    n = 0
+    # (the Fortran emitter has its own convention for results that became arguments and is compared with the C emitter
+    # entry by entry in C04.R10; this rule is about the C wrapper, which is what a C caller links against)
+    for mn, q in (("wrapc", "Wrapc.wrap_function"),):
+        m = repo.module(mn)
+        fn = m.func(q)
+        # loop variables over parameter lists: a name bound by `for x in <...>.params` (or ast.params) is an argument
+        argvars = set()
+        for l in ast.walk(fn):
+            if isinstance(l, ast.For) and isinstance(l.target, ast.Name) and "params" in str(m.seg(l.iter)):
+                argvars.add(l.target.id)
+        for lst in ast.walk(fn):
+            if not (isinstance(lst, ast.List) and any(pyflow.const_str(e) == "result" for e in lst.elts)):
+                continue
+            idx = [i for i, e in enumerate(lst.elts) if pyflow.const_str(e) == "result"][0]
+            if idx == 0 or not isinstance(lst.elts[idx - 1], ast.Name):
+                continue
+            sp = lst.elts[idx - 1].id
+            # the assignment of sp that reaches the list: the closest preceding one in an enclosing statement list
+            defs = [a for a in ast.walk(fn) if isinstance(a, ast.Assign) and pyflow.is_name(a.targets[0], sp)
+                    and a.lineno < lst.lineno and isinstance(a.value, ast.Call) and isinstance(a.value.func, ast.Attribute)
+                    and a.value.func.attr == "get_indirect_stmt"]
+            if not defs:
+                continue
+            d = max(defs, key=lambda a: a.lineno)
+            recv = str(m.seg(d.value.func.value))
+            n += 1
+            run.check(R, "%s.%s:result-indirection@%s" % (mn, q, " ".join(str(m.seg(lst)).split())[:40]), recv.split(".")[0] not in argvars,
+                      "the result statements are selected with `%s.get_indirect_stmt()`, and `%s` is a parameter of the wrapper: "
+                      "for a result that was moved into an argument this is always `*`, so `std::string f()` (by value) gets the "
+                      "statements of a pointer result and hands out the address of a local variable" % (recv, recv.split(".")[0]),
+                      m.loc(d))
+    run.floor(R, "result statement lookups", n, 1)
+    from checks import c06
+    from sa.report import import_rules
+    import_rules(run, R, c06, repo, {"C06.R10"}, only=lambda c: c.startswith("wrapc.Wrapc.compute_idtor"))
+
+
 def run(repo, run, tier):
     tables.check_model_assumptions(repo)
     table = tables.StatementTable(repo, "statements", "fc_statements")
@@ -652,4 +722,5 @@ def run(repo, run, tier):
     rule_r12(repo, run)
     rule_r13(repo, run, types)
     rule_r14(repo, run, table)
+    rule_r15(repo, run)
     rule_x(repo, run)
